@@ -19,6 +19,21 @@ CLAIMED = {
         'str.split/splitlines tables generated from the running CPython; only the non-Darwin/non-Windows path; '
         'subprocess/ldd invocation itself not modelled.',
    ref='DESIGN.md §4 C19'),
+ 'C20': dict(
+   technique='Coq proof over a byte-exact model of xmlwriter.py + in-Coq correspondence + expat read-back',
+   text='Theorems (Coq, axiom-free) over a byte-exact model of xmlwriter.py and saxutils.escape/quoteattr: escaping is '
+        'inverted by reference decoding and leaves no < or > (all strings); quoteattr yields a quoted body without its '
+        'own quote, without <, newline, CR, tab, which decodes to the value; for every tag, indentation and line '
+        'length the emitted attribute text scans back to exactly the valued attributes (wrapping never changes '
+        'content, valueless attributes omitted); for every nesting of tagcontext blocks and every abort point the '
+        'output is the rendering of a well-bracketed event list (every opened element closed in order). Partial: '
+        'the whole-document statement xml_parse(render ops) = doc_of ops is not proved in Coq; per run it is checked on '
+        'the real XMLWriter output with expat as an independent reader. Tie: model = XMLWriter byte for byte on '
+        'generated programs (valid, aborting, malformed push/pop).',
+   note='Trusted: Coq kernel+VM; saxutils modelled from CPython source (compared through the writer); expat as the '
+        'well-formedness oracle; names are XML Names and text is XML 1.0 Char by hypothesis; disable_whitespace '
+        'mode not modelled.',
+   ref='DESIGN.md §4 C20'),
 }
 
 PLANNED = {}
